@@ -1,14 +1,14 @@
 SPECIFICATION Spec
-CONSTANTS NB = 5
- Confs <- McConfs2x
+CONSTANTS NB = 3
+ Confs <- McConfs2
  NT = 0
  MaxDup = 0
- Races = TRUE
+ Races = FALSE
  BugAddMiddle = FALSE
  BugTxLoopVar = FALSE
  BugConfirmRace = FALSE
- MaxBatch = 0
- NBatch = 0
+ MaxBatch = 3
+ NBatch = 2
  BugBatchBreak = FALSE
 INVARIANTS TypeOK ChainLinear Converges CacheSorted CacheKeepsUntilParent CacheOnlyWaiting ConfirmsKept TxOnce
 PROPERTY Forward
